@@ -1,6 +1,7 @@
 package main
 
 import (
+	"bytes"
 	"context"
 	"errors"
 	"fmt"
@@ -364,6 +365,60 @@ func c10Scenario(r *Run, idx int, cs c10Case) {
 // update of a resident key, or a Delete of a resident key), while maintenance is stalled in a
 // removal listener. After cancellation the maintenance loop still drains a batch or two; only with
 // thousands of parked senders do some remain for certain. Every one of them must return.
+// c10ClosedStaysClosed: "Close is final" also against the bulk write. A snapshot saved before Close is loaded into
+// the closed cache (whatever LoadCache answers); afterwards the cache must still behave as closed.
+func c10ClosedStaysClosed(r *Run, idx int, kind string) {
+	var loads atomic.Int64
+	a, err := newAnyCache(kind, anyOpts{MaxSize: 500, Loader: func(ctx context.Context, k int) (theine.Loaded[int64], error) {
+		loads.Add(1)
+		return theine.Loaded[int64]{Value: int64(k), Cost: 1}, nil
+	}})
+	if err != nil {
+		r.Broken("build: %v", err)
+		return
+	}
+	for k := 0; k < 200; k++ {
+		a.set(k, int64(k)+1, 1, time.Duration(k%2)*time.Hour)
+	}
+	a.wait()
+	var buf bytes.Buffer
+	if err := a.save(3, &buf); err != nil {
+		r.Broken("save: %v", err)
+		return
+	}
+	a.closeAPI()
+	if a.hybrid() {
+		a.store().Close()
+	}
+	lerr := a.load(3, &buf)
+	fail := func(key, what string) {
+		r.Violate(key+"/after-loadcache-into-the-closed-cache/"+kind, fmt.Sprintf("%s cache: 200 entries saved, Close returned, LoadCache of that snapshot returned %v; then %s", kind, lerr, what), map[string]any{"cache": kind, "loadcache_error": fmt.Sprint(lerr)})
+	}
+	hits, closedErrs := 0, 0
+	for k := 0; k < 200; k++ {
+		v, ok, err := a.get(context.Background(), k)
+		if a.loading() {
+			if errors.Is(err, internal.ErrCacheClosed) {
+				closedErrs++
+			} else if err == nil {
+				hits++
+			}
+		} else if ok && v == int64(k)+1 {
+			hits++
+		}
+	}
+	n := 0
+	a.rangeAll(func(int, int64) bool { n++; return true })
+	if hits > 0 || n > 0 || a.length() > 0 {
+		fail("get-hits-after-close", fmt.Sprintf("%d of 200 Gets returned a value, Range visited %d entries, Len=%d (want none)", hits, n, a.length()))
+	} else if a.loading() && closedErrs != 200 {
+		fail("loading-get-after-close-not-errclosed", fmt.Sprintf("only %d of 200 loading Gets failed with the cache-closed error", closedErrs))
+	}
+	r.Eval(1)
+	r.Count("closed_then_loadcache_scenarios", 1)
+	r.Distinct("closed-stays-closed/" + kind)
+}
+
 func c10MassOps(r *Run, idx int, kind, op string) {
 	hiWater := maxGoroutineID()
 	lg := &noteLog[int, int64]{}
@@ -486,6 +541,11 @@ func runC10(r *Run) {
 			}
 		}
 		cases = append(cases, c10Case{Kind: kind, Writers: 0, Readers: 8, CloseAt: 5000})
+	}
+	for ki, kind := range anyKinds {
+		if ki%r.NShards == r.Shard {
+			c10ClosedStaysClosed(r, ki, kind)
+		}
 	}
 	mi := 0
 	for _, kind := range anyKinds {
